@@ -155,6 +155,14 @@ func init() {
 		if err != nil {
 			return cdcTextErr(err)
 		}
+		if !heldUnchanged(b, func() {
+			r2 := r
+			r2.ChannelID ^= 1
+			r2.SeqNr ^= 1
+			codec.Encode(r2, llotypes.ChannelDefinition{})
+		}) {
+			return clobbered("JSONReportCodec.Encode")
+		}
 		var m cdcJsonMsg
 		if err := json.Unmarshal(b, &m); err != nil {
 			return J{"harness-error": "cannot read encoder output: " + err.Error()}
@@ -195,6 +203,14 @@ func init() {
 		b, err := codec.Pack(digest, jU64(in["seqNr"]), jBytes(in["report"]), cdcJSigs(in["sigs"]))
 		if err != nil {
 			return cdcTextErr(err)
+		}
+		if !heldUnchanged(b, func() {
+			var other types.ConfigDigest
+			copy(other[:], digest[:])
+			other[0] ^= 0xff
+			codec.Pack(other, jU64(in["seqNr"])^1, jBytes(in["report"]), cdcJSigs(in["sigs"]))
+		}) {
+			return clobbered("JSONReportCodec.Pack")
 		}
 		var m cdcPackedMsg
 		if err := json.Unmarshal(b, &m); err != nil {
